@@ -32,6 +32,7 @@ type c17Case struct {
 	Fault    *sim.Fault `json:"fault,omitempty"`
 	Seed     int64      `json:"seed"`
 	Names    int        `json:"names,omitempty"` // 2: the info file lists a second device name to fall back to
+	KeyForm  string     `json:"key_form,omitempty"` // PAN-OS: how the keygen reply carries the key ("" plain text, cdata)
 }
 
 func (c *c17Case) id() string {
@@ -42,6 +43,9 @@ func (c *c17Case) id() string {
 	n := ""
 	if c.Names > 1 {
 		n = fmt.Sprintf("/names=%d", c.Names)
+	}
+	if c.KeyForm != "" {
+		n += "/key=" + c.KeyForm
 	}
 	return fmt.Sprintf("%s/%s/cmp=%v/%s/fault=%s%s", c.Type, c.FrontEnd, c.Compare, c.Alphabet, f, n)
 }
@@ -131,6 +135,7 @@ func buildC17(c *c17Case) (*liveCase, []secret) {
 		// base64 padding, as real devices produce them.
 		m.Key = randomSecret(rng, "alnum", 40) + "=="
 		if c.Type == "panos" {
+			lc.HTTP.KeyForm = c.KeyForm
 			secrets = append(secrets, secret{"apikey", m.Key})
 		} else {
 			m.Cookie = randomSecret(rng, "alnum", 32)
@@ -224,6 +229,10 @@ func checkC17(tier, replay string) int {
 		for i, k := range keys {
 			for _, al := range []string{"alnum", "base64", "special"} {
 				cases = append(cases, &c17Case{Type: k.typ, FrontEnd: k.fe, Compare: k.cmp, Alphabet: al, Seed: rng.Int63()})
+				if k.typ == "panos" {
+					// Same key, other XML spelling of the element content.
+					cases = append(cases, &c17Case{Type: k.typ, FrontEnd: k.fe, Compare: k.cmp, Alphabet: al, Seed: rng.Int63(), KeyForm: "cdata"})
+				}
 				n := steps[i]
 				pos := map[int]bool{}
 				for o := 1; o <= 8 && o <= n; o++ {
